@@ -47,3 +47,14 @@ Definition pre_fee_deposit_amount_at (s : fee_schedule) (epoch post : Z) : res Z
 (* TransferFeeConfig::calculate_epoch_fee: what the token program withholds from a transfer in `epoch` *)
 Definition calculate_epoch_fee (s : fee_schedule) (epoch pre : Z) : res Z :=
   calculate_fee (fst (get_epoch_fee s epoch)) (snd (get_epoch_fee s epoch)) pre.
+
+(* lending_pool_setup_emissions(total) / lending_pool_update_emissions_parameters(additional): the bank records `amount`
+   as funded emissions and pulls the grossed-up amount from the funding account (balance `balance`; the token program
+   refuses with InsufficientFunds = Custom(1)); the emissions vault receives what is left after the mint's fee.
+   Result: (sent, received). *)
+Definition SPL_INSUFFICIENT_FUNDS : Z := 1.
+Definition fund_emissions (has_fee : bool) (s : fee_schedule) (epoch balance amount : Z) : res (Z * Z) :=
+  let* pre := if has_fee then pre_fee_deposit_amount_at s epoch amount else Ok amount in
+  if balance <? pre then Err (E SPL_INSUFFICIENT_FUNDS) else
+  let* fee := if has_fee then (match calculate_epoch_fee s epoch pre with Ok f => Ok f | Err _ => Err EPanic end) else Ok 0 in
+  Ok (pre, pre - fee).
